@@ -62,10 +62,16 @@ def _alarm(signum, frame):
     raise Timeout()
 
 
+_HANGS = 0     # inputs on which an extractor did not end within its limit in this process
+
+
 def run_extractor(fn, data: bytes, path=None, limit_s=60, consume=None):
     """Consume fn(BytesIO(data), path). Returns ('ok', results) | ('family', clsname) |
     ('other', clsname, repr) | ('hang', limit)."""
     fam = family()
+    global _HANGS
+    if _HANGS >= 2:     # non-termination is established for this run: keep exploring, but do not wait a minute per input
+        limit_s = min(limit_s, 8)
     old = signal.signal(signal.SIGALRM, _alarm)
     signal.alarm(limit_s)
     try:
@@ -77,6 +83,7 @@ def run_extractor(fn, data: bytes, path=None, limit_s=60, consume=None):
                     consume(r)
             return ("ok", res)
         except Timeout:
+            _HANGS += 1
             return ("hang", limit_s)
         except fam as e:
             return ("family", type(e).__name__)
